@@ -6,6 +6,7 @@ From GM Require Import Base.Prelude Base.Outcome Codec.Packets Codec.Settings En
 From RecordUpdate Require Import RecordSet.
 Import RecordSetNotations.
 Open Scope N_scope.
+#[local] Set Default Proof Using "Type".
 
 (* the four component types are implicit in the engine functions, locally to this file *)
 #[local] Arguments init {enc dec} _ {ores ires} _ _.
@@ -222,7 +223,7 @@ Section St.
     assert (H4 : s_st s4 = s_st s) by congruence.
     destruct (v_out (s_settings s4) (cf_connect cfg) r packet) as [u|k|site]; [| |apply ST_eq; exact H4].
     - destruct (enc_reset (cf_version cfg) packet r); cbn; apply ST_eq; exact H4.
-    - match goal with |- context [fail_op cfg ?sx id k] => pose proof (fail_op_ST sx id k) as Hf; set (rf := fail_op cfg sx id k) in * end.
+    - match goal with |- context [fail_op cfg ?sx id k] => pose proof (fail_op_ST sx id k) as Hf; set (rf := fail_op cfg sx id k) in Hf |- * end.
       assert (Hq : ST s (r_s rf)).
       { eapply ST_trans; [|exact Hf]. apply ST_eq. destruct (r_alias r); cbn; exact H4. }
       destruct (r_out rf); cbn; exact Hq.
@@ -264,7 +265,7 @@ Section St.
     destruct (negb (pstate_eqb (s_st s) PendingConnack || pstate_eqb (s_st s) Connected)) eqn:Eg; [left; reflexivity|].
     assert (Hl : s_st s <> PendingDisconnect) by (destruct (s_st s); cbn in Eg; congruence).
     pose proof (seat_current_ST s m acc dn) as [Hs|[Hs _]]; [|contradiction].
-    destruct (seat_current s m acc dn) as [r|s5 dn'|s5]; cbn [seat_state fst] in *; [left; exact Hs|rewrite <- Hs; apply IH|].
+    destruct (seat_current s m acc dn) as [r|s5 dn'|s5]; cbn [seat_state fst] in Hs |- *; [left; exact Hs|rewrite <- Hs; apply IH|].
     pose proof (encode_next_st now cap fill s5 acc dn) as He.
     destruct (encode_next now cap fill s5 acc dn) as [r|[s7 acc']]; cbn [fst]; [left; congruence|].
     destruct (IH s7 m now cap fill acc' dn) as [I1|I1]; [|right; exact I1]. destruct He as [He|He]; [left|right]; congruence.
@@ -359,7 +360,7 @@ Section St.
     { unfold r1. destruct sp; [st_id|].
       destruct (partition_policy cfg s (s_rq s)) as [kept rejected].
       match goal with |- context [fail_all cfg ?sx rejected ?e] => pose proof (fail_all_ST rejected sx e) as Hf;
-        set (rf := fail_all cfg sx rejected e) in * end.
+        set (rf := fail_all cfg sx rejected e) in Hf |- * end.
       assert (Hq : ST s (r_s rf)) by (eapply ST_trans; [|exact Hf]; st_id).
       destruct (is_panic (r_out rf)); [exact Hq|]. cbn [r_s]. eapply ST_trans; [exact Hq|st_id]. }
     clearbody r1. destruct (is_panic (r_out r1)); [exact H1|].
@@ -394,11 +395,11 @@ Section St.
     destruct (negb (ca_rc c =? 0)) eqn:E2; [split; [apply HT_refl|cbn; congruence]|].
     destruct (v_in None (Connack c)); [|split; [apply HT_refl|cbn; congruence]|split; [apply HT_refl|cbn; congruence]].
     cbv zeta.
-    match goal with |- context [apply_session cfg ?sx ?sp] => pose proof (apply_session_ST sx sp) as Ha; set (r := apply_session cfg sx sp) in *;
+    match goal with |- context [apply_session cfg ?sx ?sp] => pose proof (apply_session_ST sx sp) as Ha; set (r := apply_session cfg sx sp) in Ha |- *;
       assert (Hx : s_st sx = Connected) by (destruct (cf_drain_one cfg); reflexivity) end.
     assert (H : s_st (r_s r) = Connected) by (destruct Ha as [Ha|[Ha _]]; congruence).
     destruct (r_out r) as [[]|k|site]; cbn [h_s h_ev h_out]; (split; [right; split; assumption|]); intros Ho _ _; try discriminate.
-    split; [exact Hpc|]. exists c. split; [left; reflexivity|]. destruct (ca_rc c =? 0) eqn:E; [lia|discriminate].
+    split; [exact Hpc|]. exists c. split; [left; reflexivity|]. destruct (ca_rc c =? 0) eqn:E; [apply N.eqb_eq in E; exact E|discriminate].
   Qed.
 
   Lemma hres_of_ST (s : state) (r : res) ev : ST s (r_s r) -> ST s (h_s (hres_of r ev)).
@@ -476,7 +477,7 @@ Section St.
     destruct (v_in (s_settings s1) p1); [|cbn; split; [right; left; reflexivity|intros; discriminate]|cbn; split; [left; exact Hres|intros; discriminate]].
     destruct (handle_packet_HT s1 now p1) as [Hh Hc].
     assert (Hh' : DT s (h_s (handle_packet s1 now p1))).
-    { apply HT_DT in Hh. unfold DT in *. rewrite Hres in Hh. exact Hh. }
+    { apply HT_DT in Hh. unfold DT in Hh |- *. rewrite Hres in Hh. exact Hh. }
     destruct (h_out (handle_packet s1 now p1)) as [[]|k|site] eqn:Eo; cbn [h_s h_ev h_out];
       [|split; [right; left; reflexivity|intros; discriminate]|split; [exact Hh'|intros; discriminate]].
     destruct (IH (h_s (handle_packet s1 now p1)) (dn ++ h_done (handle_packet s1 now p1)) (ev ++ h_ev (handle_packet s1 now p1))) as [I1 I2].
@@ -498,20 +499,20 @@ Section St.
   Proof.
     cbv zeta. unfold Model.net_data.
     destruct (pstate_eqb (s_st s) Disconnected || pstate_eqb (s_st s) Halted) eqn:E1.
-    { cbn. split; [destruct (s_st s); cbn in *; try discriminate; auto|intros; discriminate]. }
+    { cbn. split; [destruct (s_st s); cbn in E1; cbn; try discriminate; auto|intros; discriminate]. }
     destruct (pstate_eqb (s_st s) PendingConnack && connect_in_queue s) eqn:E2.
-    { cbn. split; [destruct (s_st s); cbn in *; try discriminate; auto|intros; discriminate]. }
+    { cbn. split; [destruct (s_st s); cbn in E1; cbn; try discriminate; auto|intros; discriminate]. }
     destruct (dec_feed _ _ _ _) as [[d' ps] r]. destruct r as [u|k|site].
     - destruct (handle_packets_DT now ps (s <| s_dec := d' |>) [] []) as [D1 D2].
-      set (h := handle_packets (s <| s_dec := d' |>) now ps [] []) in *. change (s_st (s <| s_dec := d' |>)) with (s_st s) in *.
+      set (h := handle_packets (s <| s_dec := d' |>) now ps [] []) in D1, D2 |- *. change (s_st (s <| s_dec := d' |>)) with (s_st s) in D1, D2 |- *.
       split.
-      + destruct (h_out h); cbn [halt_on_error st_step]; [|destruct (s_st s); cbn in *; try discriminate; auto..].
+      + destruct (h_out h); cbn [halt_on_error st_step]; [|destruct (s_st s); cbn in E1; cbn; try discriminate; auto..].
         unfold DT in D1. change (s_st (s <| s_dec := d' |>)) with (s_st s) in D1. destruct (s_st s) eqn:Es; cbn in E1; try discriminate; cbn; intuition congruence.
       + intros Hc Hn. destruct (h_out h) as [[]|k|site] eqn:Eo; cbn [halt_on_error] in Hc; try discriminate.
         split; [exact (D2 eq_refl Hc Hn)|]. destruct (D2 eq_refl Hc Hn) as (V1 & _).
         assert (V1' : s_st s = PendingConnack) by exact V1. rewrite V1' in E2. exact E2.
-    - cbn. split; [destruct (s_st s); cbn in *; try discriminate; auto|intros; discriminate].
-    - cbn. split; [destruct (s_st s); cbn in *; try discriminate; auto|intros; discriminate].
+    - cbn. split; [destruct (s_st s); cbn in E1; cbn; try discriminate; auto|intros; discriminate].
+    - cbn. split; [destruct (s_st s); cbn in E1; cbn; try discriminate; auto|intros; discriminate].
   Qed.
 
   (* ---- write completion, opening, reset ---- *)
@@ -521,10 +522,10 @@ Section St.
   Proof.
     cbv zeta. unfold net_write_completion.
     destruct (pstate_eqb (s_st s) Halted || pstate_eqb (s_st s) Disconnected) eqn:E1.
-    { cbn. destruct (s_st s); cbn in *; try discriminate; auto. }
+    { cbn. destruct (s_st s); cbn in E1; cbn; try discriminate; auto. }
     destruct (negb (s_pwc s)).
-    { cbn. destruct (s_st s); cbn in *; try discriminate; auto. }
-    match goal with |- context [succeed_all cfg ?sx ?ids] => pose proof (succeed_all_ST ids sx) as Hs; set (r := succeed_all cfg sx ids) in * end.
+    { cbn. destruct (s_st s); cbn in E1; cbn; try discriminate; auto. }
+    match goal with |- context [succeed_all cfg ?sx ?ids] => pose proof (succeed_all_ST ids sx) as Hs; set (r := succeed_all cfg sx ids) in Hs |- * end.
     unfold ST in Hs. change (s_st (s <| s_pwc := false |> <| s_pwco := [] |>)) with (s_st s) in Hs.
     pose proof (halt_on_error_st (r_s r) (r_out r)) as [Hh|Hh]; rewrite Hh; cbn [st_step];
       destruct (s_st s) eqn:Es; cbn in E1; try discriminate; auto; destruct Hs as [Hs|[Hs Hs']]; try congruence; auto.
